@@ -423,7 +423,8 @@ fn judge_history(prop: &str, c08: bool, wk: &Worker, cn: &'static Coin, h: &Hist
             return;
         }
     };
-    let world = World::simple(cn, &cb.blocks, 0);
+    // every other history spread over two blk files (height order leaves a file and returns to the adjacent block)
+    let world = World::laid_out(cn, &cb.blocks, 0, h.txs.len() + h.txs.iter().map(|t| t.inputs.len() + t.outs.len() + t.block as usize).sum::<usize>());
     let all = cb.mblocks();
     // classify for coverage accounting
     for t in &h.txs {
@@ -450,7 +451,28 @@ fn run_and_judge(prop: &str, c08: bool, wk: &Worker, cn: &'static Coin, world: &
     }
     let mut spec_u = RunSpec::new(cn.name, "unspentcsvdump").range(start, None);
     spec_u.env.push(("VERIF_RUN_TIMEOUT".into(), "120".into()));
-    let ru = wk.run(&spec_u);
+    // every fourth case starts from a dump folder holding the (longer) *.csv.tmp leftovers of an aborted earlier dump
+    let dirty = h8(label.as_bytes())[0] % 4 == 0;
+    let run = |spec: &RunSpec| {
+        if dirty {
+            wk.fresh_dump();
+            let junk: String = (0..400).map(|i| format!("{:064x};{};{};{};1LeftoverOfAnAbortedRun{}\n", i, i, i, 1000 + i, i)).collect();
+            for n in ["unspent.csv.tmp", "balances.csv.tmp"] {
+                std::fs::write(wk.dump().join(n), &junk).unwrap();
+            }
+            let mut r = wk.run_keep(spec);
+            // the other callback's leftover is not this run's business
+            let other = if spec.callback == "balances" { "unspent.csv.tmp" } else { "balances.csv.tmp" };
+            r.files.remove(other);
+            r
+        } else {
+            wk.run(spec)
+        }
+    };
+    if dirty {
+        acc.count("dump-folder-with-leftover-tmp-files", 1);
+    }
+    let ru = run(&spec_u);
     acc.states += 1;
     acc.transitions += 1;
     let tip = all.last().map(|b| b.height).unwrap_or(0);
@@ -472,7 +494,7 @@ fn run_and_judge(prop: &str, c08: bool, wk: &Worker, cn: &'static Coin, world: &
     // C08: balances against the model and against the aggregation of the observed unspent dump
     let mut spec_b = RunSpec::new(cn.name, "balances").range(start, None);
     spec_b.env.push(("VERIF_RUN_TIMEOUT".into(), "120".into()));
-    let rb = wk.run(&spec_b);
+    let rb = run(&spec_b);
     acc.transitions += 1;
     if let Some((sig, detail)) = check_balances(&rb, cn, &range, s, e).into_iter().next() {
         acc.disagree(&sig, format!("{} start={:?} {}: {}", cn.name, start, label, detail), rc(&spec_b, &rb));
